@@ -437,6 +437,9 @@ void getOffsetAndCount(const MultiTag &tag, const DataArray &array, const vector
     }
     if (extents) {
         extent_size = extents.dataExtent();
+    } else {
+        // points, like a Tag without extent: dimensions the positions do not specify are included in full
+        match = RangeMatch::Inclusive;
     }
     ndsize_t max_index = *max_element(indices.begin(), indices.end());
     if (max_index >= positions.dataExtent()[0] || (extents && max_index >= extents.dataExtent()[0])) {
